@@ -30,7 +30,7 @@ CLAIMS = {
                 text='Proof that every partial operation is guarded (no NaN/inf in exact arithmetic), that readiness is monotone, and of the documented warm-up lengths.'),
     'C09': dict(views=['ema', 'laguerre_filter', 'super_smoother', 'roofing_filter', 'cyber_cycle', 'trend_flex', 're_flex', 'laguerre_rsi', 'ehlers_fisher_transform', 'echo'],
                 technique='Verus: coefficient contracts (pole locations / Jury conditions) for every window length, one-step contraction lemmas, whole-history lemmas by induction (geometric decay over a common tail, bounded input bounded output)',
-                text='Proof of pole locations for symbolic N, one-step contractions, and over whole histories: distance after a common tail of m values == c^m x initial distance with 0 <= c < 1 (Ema, SuperSmoother Lyapunov form, Laguerre first stage, Fisher); bounded-input-bounded-output over whole histories for Ema, LaguerreFilter and SuperSmoother (bounds fixed by coefficients and input bound); stream-length independent output bounds of EFT, LaguerreRSI, TrendFlex, ReFlex.'),
+                text='Proof of pole locations for symbolic N, one-step contractions, and over whole histories: distance after a common tail of m values == c^m x initial distance with 0 <= c < 1 (Ema, SuperSmoother Lyapunov form, Laguerre first stage, Fisher); bounded-input-bounded-output over whole histories for Ema, LaguerreFilter, SuperSmoother, RoofingFilter and CyberCycle (bounds fixed by coefficients and input bound); stream-length independent output bounds of EFT, LaguerreRSI, TrendFlex, ReFlex.'),
     'C10': dict(views=['sma', 'ema', 'alma', 'cumulative', 'laguerre_filter', 'super_smoother', 'roofing_filter', 'cyber_cycle', 'echo'],
                 technique='Verus lemmas: own-step and out are linear maps of (state, input)',
                 text='Proof of one-step superposition and of the induction over whole histories for all eight linear views.'),
